@@ -4,3 +4,13 @@ import HotXL.Model.Basic
 import HotXL.Generated.Tables
 import HotXL.Model.Cell
 import HotXL.Model.Emitter
+import HotXL.Model.PyNum
+import HotXL.Model.Lexer
+import HotXL.Model.Calendar
+import HotXL.Model.Dates
+import HotXL.Model.Syntax
+import HotXL.Model.Operators
+import HotXL.Model.Builtins
+import HotXL.Model.Eval
+import HotXL.Props.C19
+import HotXL.Props.C20
